@@ -304,8 +304,9 @@ Section Rel.
   Variable kh : forall e : eff, K -> K * resp e * list kev.
   Variable dresp : forall e : eff, resp e.
   Variable f : sfaults.
+  Variable F : eff -> Prop.                 (* the writes the injected failure may hit *)
   Notation step := (step K kh dresp f).
-  Notation wpA := (wpA kh dresp f).
+  Notation wpA := (wpA kh dresp f F).
 
   Lemma step_rel e (s : rstate K) :
     (led (fst (step e s)) = led s /\ creates (tr (fst (step e s))) = creates (tr s))
@@ -408,7 +409,7 @@ Section Rel.
         (Q : list release -> list nat -> A -> Prop) l cs :
     leaves R p -> wpA G p Q l cs -> wpA G p (fun l1 c1 a => Q l1 c1 a /\ R a) l cs.
   Proof.
-    intros HL H s Hl Hc Hd. destruct (H s Hl Hc Hd) as [H1 H2]. split; auto.
+    intros HL H s Hl Hc Hd Hf. destruct (H s Hl Hc Hd Hf) as [H1 H2]. split; auto.
     intros D. split; auto. now apply leaves_run.
   Qed.
 
@@ -417,7 +418,7 @@ Section Rel.
     wpA G1 p Q1 l cs -> wpA G2 p Q2 l cs ->
     wpA (fun l1 c1 => G1 l1 c1 /\ G2 l1 c1) p (fun l1 c1 a => Q1 l1 c1 a /\ Q2 l1 c1 a) l cs.
   Proof.
-    intros H1 H2 s Hl Hc Hd. destruct (H1 s Hl Hc Hd) as [A1 B1]. destruct (H2 s Hl Hc Hd) as [A2 B2].
+    intros H1 H2 s Hl Hc Hd Hf. destruct (H1 s Hl Hc Hd Hf) as [A1 B1]. destruct (H2 s Hl Hc Hd Hf) as [A2 B2].
     split; auto.
   Qed.
 
@@ -428,7 +429,7 @@ Section Rel.
     wpA G (Eff (SUpdate x) k) Q l cs.
   Proof.
     intros HG H. apply wp_update; auto.
-    - intros _. apply H; auto. apply upd_of_refl.
+    - intros _ _. apply H; auto. apply upd_of_refl.
     - apply H; [apply revs_replace|now right].
   Qed.
 
@@ -455,7 +456,7 @@ Section Rel.
     assert (Hcreate : forall l, incl l l0 ->
               wpA (fun l c => incl l l0 /\ c = cs0) (perform (SCreate x)) (created_post x l0 cs0) l cs0).
     { intros l Hl. unfold perform. apply wp_create; auto.
-      - intros Hf. apply wp_ret. right. auto.
+      - intros Hf _. apply wp_ret. right. auto.
       - intros _. apply wp_ret. right. split; auto. split; auto. discriminate.
       - intros Hr. apply wp_ret. left. split; auto. exists l. split; auto. split; auto. split; auto.
         now apply has_rev_false. }
